@@ -605,7 +605,7 @@ def check_case(case, ctx):
 def _check(case, ctx, inst):
     redox = case["redox"]
     # generator-side labels: only those that are not measured again on the dump (the evidence histogram keeps 80 labels)
-    classes = [l for l in case.get("labels", []) if l.startswith(("profile=", "redox=", "follow=", "history=", "hist_", "excluded_", "known_"))]
+    classes = [l for l in case.get("labels", []) if l.startswith(("profile=", "redox=", "follow=", "history=0", "hist_", "excluded_", "known_"))]
     A = inst()
     for k, s in enumerate(case["sims"]):
         if A.run_string(s) != 0:
@@ -750,8 +750,59 @@ def _check(case, ctx, inst):
             if not well_conditioned(T, Tp, cols, redox):
                 classes.append("followup_%s_not_compared_not_reproducible_under_noise" % name)
                 return
-            compare_tables(TA, T, cols, redox, "follow_" + name, stats)
+            try:
+                compare_tables(TA, T, cols, redox, "follow_" + name, stats)
+            except Violation as v:
+                # Second opinion before an alarm: some systems have two self-consistent answers and which one the engine
+                # reaches flips with noise of 1e-14 (seen: CD-MUSIC + Donnan layer with only_counter_ions near zero
+                # charge; solid solutions next to other phases).  The difference counts only if three more runs on each
+                # side (other noise amplitude, other solver history, other Newton step limits) reproduce *their* side.
+                if not confirm(name, T):
+                    classes.append("followup_%s_difference_not_confirmed_two_answers_under_noise" % name)
+                    return
+                raise v
             classes.append("followup_%s_compared" % name)
+
+        VARIANTS = [(" -step_size 30\n -pe_step_size 5", NOISE_SIM, 1e-13),
+                    (" -step_size 300\n -pe_step_size 20", NOISE_SIM.replace("7777", "7778").replace("Na 0.1", "K 0.3"), 7e-13),
+                    (" -diagonal_scale true", "", 2e-12)]
+
+        def variant_case(knobs):
+            c2 = dict(case)
+            for key in ("follow", "follow_p"):
+                if case.get(key):
+                    c2[key] = case[key].replace(" -iterations 400", " -iterations 400\n" + knobs, 1)
+            return c2
+
+        def confirm(name, T):
+            """True when 3 further samples of the original agree with TA and 3 further samples of route `name` agree with T"""
+            for knobs, noise, eps in VARIANTS:
+                c2 = variant_case(knobs)
+                # original side: a replica of the history, perturbed only through the input language
+                X = inst()
+                if not all(X.run_string(s) == 0 for s in case["sims"]) or (noise and X.run_string(noise) != 0):
+                    return False
+                TX, _e = run_follow(X, c2, fp)
+                if not well_conditioned(TA, TX, cols, redox):
+                    return False
+                # route side
+                Y = inst()
+                if name == "restored":
+                    ok = Y.run_string(perturb(D1, eps)) == 0
+                elif name == "serializer":
+                    X2 = inst()
+                    ok = all(X2.run_string(s) == 0 for s in case["sims"]) and X2.serialize_into(Y, 0, nmax) is not None
+                    if ok and extra.strip():
+                        ok = Y.run_string(extra + "END\n") == 0
+                else:
+                    pl, rs = modify_input(perturb(D1, eps), R.parse(perturb(D1, eps)))
+                    ok = Y.run_string(pl) == 0 and Y.run_string(rs) == 0
+                if not ok or (noise and Y.run_string(noise) != 0):
+                    return False
+                TY, _e = run_follow(Y, c2)
+                if not well_conditioned(T, TY, cols, redox):
+                    return False
+            return True
 
         # (3) text-restored (+ storage-bin round-tripped) state; replica: restored from the perturbed dump
         Bp = inst()
@@ -784,13 +835,11 @@ def _check(case, ctx, inst):
     if stats:
         # largest follow-up deviation seen, in units of the tolerance (one entry per shard)
         ctx.extra["followup_max_deviation_over_tolerance"] = [max([(ctx.extra.get("followup_max_deviation_over_tolerance") or [0.0])[0]] + list(stats.values()))]
-    for k in sorted(kinds):
+    for k in sorted(kinds - {"SOLUTION"}):       # (every case holds solutions)
         classes.append("kind_" + k)
     classes.append("kinds=%s" % ("1-2" if len(kinds) <= 2 else "3-4" if len(kinds) <= 4 else "5-7" if len(kinds) <= 7 else ">=8"))
     for s in sorted(sub):
         classes.append("sub_" + s)
-    if TA.rows > 2:
-        classes.append("followup_multi_step")
     nt = len(kinds) >= 3 or bool(sub - DEFAULT_SUB)
     return {"nontrivial": nt, "classes": classes}
 
